@@ -542,6 +542,8 @@ def calculate_1d_bins(
                 raise ValueError("Cannot calculate bins in presence of NaN's.")
         if kwargs.get("range"):  # TODO: re-consider the usage of this parameter
             array = array[(array >= kwargs["range"][0]) & (array <= kwargs["range"][1])]
+    if isinstance(_, np.integer) or (isinstance(_, np.ndarray) and _.ndim == 0 and _.dtype.kind in "iu"):
+        _ = int(_)  # (A number of bins, as numpy accepts it)
     if _ is None:
         bin_count = (
             10  # kwargs.pop("bins", ideal_bin_count(data=array)) - same as numpy
